@@ -3,6 +3,7 @@ import Mathlib.Data.List.Count
 import Mathlib.Tactic.Linarith
 import BioscrapeModel.Proofs.Laws
 import BioscrapeModel.Model.Sbml
+import BioscrapeModel.Model.PowText
 import BioscrapeModel.Properties.C03
 
 /-
@@ -148,5 +149,260 @@ example : (importRules (α := ℚ) (fun _ => true)
   ∧ (importRules (α := ℚ) (fun _ => true)
     [⟨.assignment, "S", .ident "A"⟩, ⟨.rate, "X", .num 2⟩, ⟨.assignment, "T", .ident "B"⟩]).rateReactions.map (·.1) = ["X"] := by
   simp [importRules, importStep]
+
+
+
+/-! ### The text between the document and the importer: powers
+
+`Model/PowText.lean`: libsbml's printer (`printL3`) and the reader of its text (`readE`).  For **every** expression tree the
+reader returns `readBack e` — the left spine of every power re-associated to the right (`read_print_readBack`); that is the tree
+that was written exactly when no power has a power as its base (`readBack_eq_iff`), and never otherwise
+(`pow_of_pow_misread`: the known finding, for every instance).  The check compares `printL3` with
+`libsbml.formulaToL3String` and the importer's rate with the value of `readBack e` on every tree shape up to three powers. -/
+
+open Bioscrape.PowText
+
+def noHat (rest : List PTok) : Prop := rest.head? ≠ some .hat
+
+theorem read_print (e : PowTree) (h : leftAtomic e = true) :
+    ∀ (fuel : Nat) (rest : List PTok), size e ≤ fuel → noHat rest → readE fuel (printL3 e ++ rest) = some (e, rest) := by
+  induction e with
+  | atom n =>
+    intro fuel rest hf hr
+    cases fuel with
+    | zero => simp [size] at hf
+    | succ f =>
+      cases rest with
+      | nil => simp [printL3, readE]
+      | cons t rest =>
+        cases t <;> simp_all [printL3, readE, noHat]
+  | pow a b iha ihb =>
+    intro fuel rest hf hr
+    cases a with
+    | pow _ _ => simp [leftAtomic] at h
+    | atom n =>
+      have hb : leftAtomic b = true := by simpa [leftAtomic] using h
+      cases fuel with
+      | zero => simp [size] at hf
+      | succ f =>
+        have hsz : size b + 1 ≤ f := by simp [size] at hf; omega
+        cases b with
+        | atom m =>
+          have := ihb hb f rest (by simp [size] at hsz ⊢; omega) hr
+          simp only [printL3, wrapIfPow, List.append_assoc, List.cons_append, List.nil_append] at this ⊢
+          simp [readE, this]
+        | pow b1 b2 =>
+          cases f with
+          | zero => simp [size] at hsz
+          | succ f' =>
+            have := ihb hb f' (.rp :: rest) (by omega) (by simp [noHat])
+            simp only [printL3, wrapIfPow, List.append_assoc, List.cons_append, List.nil_append] at this ⊢
+            cases rest with
+            | nil => simp [readE, this]
+            | cons t rest => cases t <;> simp_all [readE, noHat]
+
+/-- **round trip on the fragment the printer writes unambiguously** -/
+theorem roundtrip_leftAtomic (e : PowTree) (h : leftAtomic e = true) : readE (size e) (printL3 e) = some (e, []) := by
+  have := read_print e h (size e) [] (Nat.le_refl _) (by simp [noHat])
+  simpa using this
+
+/-- **the finding**: a power of a power is written `x^y^z` and read back as `x^(y^z)`. -/
+theorem misread (x y z : Nat) :
+    readE 5 (printL3 (.pow (.pow (.atom x) (.atom y)) (.atom z))) = some (.pow (.atom x) (.pow (.atom y) (.atom z)), []) := by
+  simp [printL3, wrapIfPow, readE]
+
+/-- the two trees differ, so the round trip does not return what was written. -/
+theorem misread_ne (x y z : Nat) :
+    (PowTree.pow (.pow (.atom x) (.atom y)) (.atom z)) ≠ .pow (.atom x) (.pow (.atom y) (.atom z)) := by
+  intro h; cases h
+
+theorem readE_mono : ∀ (f : Nat) (ts : List PTok) (r : PowTree × List PTok), readE f ts = some r → readE (f + 1) ts = some r := by
+  intro f
+  induction f with
+  | zero => intro ts r h; simp [readE] at h
+  | succ f ih =>
+    intro ts r h
+    unfold readE at h ⊢
+    cases ts with
+    | nil => simp at h
+    | cons t rest =>
+      cases t with
+      | id n =>
+        simp only at h ⊢
+        cases rest with
+        | nil => simpa using h
+        | cons t2 rest2 =>
+          cases t2 with
+          | hat =>
+            simp only at h ⊢
+            cases hr : readE f rest2 with
+            | none => simp [hr] at h
+            | some q => rw [ih _ _ hr]; simpa [hr] using h
+          | id _ => simpa using h
+          | lp => simpa using h
+          | rp => simpa using h
+      | lp =>
+        simp only at h ⊢
+        cases hr : readE f rest with
+        | none => simp [hr] at h
+        | some q =>
+          rw [ih _ _ hr]
+          rw [hr] at h
+          obtain ⟨e, k⟩ := q
+          cases k with
+          | nil => simp at h
+          | cons t2 k2 =>
+            cases t2 with
+            | rp =>
+              simp only at h ⊢
+              cases k2 with
+              | nil => simpa using h
+              | cons t3 k3 =>
+                cases t3 with
+                | hat =>
+                  simp only at h ⊢
+                  cases hr2 : readE f k3 with
+                  | none => simp [hr2] at h
+                  | some q2 => rw [ih _ _ hr2]; simpa [hr2] using h
+                | id _ => simpa using h
+                | lp => simpa using h
+                | rp => simpa using h
+            | id _ => simp at h
+            | lp => simp at h
+            | hat => simp at h
+      | hat => simp at h
+      | rp => simp at h
+
+theorem readE_mono_le (f f' : Nat) (hle : f ≤ f') (ts : List PTok) (r : PowTree × List PTok) (h : readE f ts = some r) :
+    readE f' ts = some r := by
+  induction hle with
+  | refl => exact h
+  | step _ ih => exact readE_mono _ _ _ ih
+
+/-- reads of this text succeed with every large enough amount of fuel. -/
+def Reads (ts : List PTok) (e : PowTree) (rest : List PTok) : Prop := ∃ F, ∀ fuel, F ≤ fuel → readE fuel ts = some (e, rest)
+
+/-- what follows the text of `e`: nothing that continues the power chain, or `^` and a text read as `t`. -/
+def ContOK (tl : Option PowTree) (k rest : List PTok) : Prop :=
+  match tl with
+  | none => k = rest ∧ noHat rest
+  | some t => ∃ k', k = .hat :: k' ∧ Reads k' t rest
+
+theorem reads_prim_then (e : PowTree) (pre k rest : List PTok) (tl : Option PowTree)
+    (hprim : ∀ fuel, readE (fuel + 1) (pre ++ k) =
+      (match (some (e, k) : Option (PowTree × List PTok)) with
+       | none => none
+       | some (e, .hat :: rest') => (match readE fuel rest' with | some (r, rs) => some (.pow e r, rs) | none => none)
+       | some (e, rest) => some (e, rest)))
+    (hk : ContOK tl k rest) :
+    Reads (pre ++ k) (tailOf tl e) rest := by
+  cases tl with
+  | none =>
+    obtain ⟨rfl, hr⟩ := hk
+    refine ⟨1, fun fuel hf => ?_⟩
+    obtain ⟨f, rfl⟩ : ∃ f, fuel = f + 1 := ⟨fuel - 1, by omega⟩
+    rw [hprim]
+    cases k with
+    | nil => rfl
+    | cons t k =>
+      cases t with
+      | hat => exact (hr rfl).elim
+      | id _ => rfl
+      | lp => rfl
+      | rp => rfl
+  | some t =>
+    obtain ⟨k', rfl, F, hF⟩ := hk
+    refine ⟨F + 1, fun fuel hf => ?_⟩
+    obtain ⟨f, rfl⟩ : ∃ f, fuel = f + 1 := ⟨fuel - 1, by omega⟩
+    rw [hprim]
+    simp [hF f (by omega), tailOf]
+
+theorem read_print_acc (e : PowTree) :
+    ∀ (tl : Option PowTree) (k rest : List PTok), ContOK tl k rest → Reads (printL3 e ++ k) (normAcc e tl) rest := by
+  induction e with
+  | atom n =>
+    intro tl k rest hk
+    have := reads_prim_then (.atom n) [.id n] k rest tl (fun fuel => by first | rfl | (simp only [readE, List.cons_append, List.nil_append]; rfl)) hk
+    cases tl <;> simpa [printL3, normAcc, tailOf] using this
+  | pow a b iha ihb =>
+    intro tl k rest hk
+    -- the right operand followed by `k` reads as `T`
+    have hT : Reads (wrapIfPow b (printL3 b) ++ k) (tailOf tl (normAcc b none)) rest := by
+      cases b with
+      | atom m =>
+        have := reads_prim_then (.atom m) [.id m] k rest tl (fun fuel => by first | rfl | (simp only [readE, List.cons_append, List.nil_append]; rfl)) hk
+        simpa [wrapIfPow, printL3, normAcc] using this
+      | pow b1 b2 =>
+        show Reads _ (tailOf tl (normAcc (.pow b1 b2) none)) rest
+        obtain ⟨F, hF⟩ := ihb none (.rp :: k) (.rp :: k) ⟨rfl, by simp [noHat]⟩
+        -- with enough fuel the parenthesised operand is a primary
+        cases tl with
+        | none =>
+          obtain ⟨rfl, hr⟩ := hk
+          refine ⟨F + 1, fun fuel hf => ?_⟩
+          obtain ⟨f, rfl⟩ : ∃ f, fuel = f + 1 := ⟨fuel - 1, by omega⟩
+          have h1 := hF f (by omega)
+          simp only [wrapIfPow, List.append_assoc, List.cons_append, List.nil_append] at h1 ⊢
+          cases k with
+          | nil => simp [readE, h1, tailOf]
+          | cons t k =>
+            cases t with
+            | hat => exact (hr rfl).elim
+            | id _ => simp [readE, h1, tailOf]
+            | lp => simp [readE, h1, tailOf]
+            | rp => simp [readE, h1, tailOf]
+        | some t =>
+          obtain ⟨k', rfl, F2, hF2⟩ := hk
+          refine ⟨max F F2 + 1, fun fuel hf => ?_⟩
+          obtain ⟨f, rfl⟩ : ∃ f, fuel = f + 1 := ⟨fuel - 1, by omega⟩
+          have h1 := hF f (by omega)
+          have h2 := hF2 f (by omega)
+          simp only [wrapIfPow, List.append_assoc, List.cons_append, List.nil_append] at h1 ⊢
+          simp [readE, h1, h2, tailOf]
+    have := iha (some (tailOf tl (normAcc b none)))
+      (.hat :: (wrapIfPow b (printL3 b) ++ k)) rest ⟨_, rfl, hT⟩
+    simpa [printL3, normAcc, List.append_assoc] using this
+
+/-- **what the round trip returns, for every tree**: the text of `e` is read as `readBack e`. -/
+theorem read_print_readBack (e : PowTree) : Reads (printL3 e) (readBack e) [] := by
+  have := read_print_acc e none [] [] ⟨rfl, by simp [noHat]⟩
+  simpa [readBack] using this
+
+/-- read with a continuation, the result is always `identifier ^ something`. -/
+theorem normAcc_some_shape (e : PowTree) : ∀ t, ∃ n r, normAcc e (some t) = .pow (.atom n) r := by
+  induction e with
+  | atom n => intro t; exact ⟨n, t, rfl⟩
+  | pow a b iha _ => intro t; exact iha _
+
+theorem readBack_pow_atom (n : Nat) (b : PowTree) : readBack (.pow (.atom n) b) = .pow (.atom n) (readBack b) := by
+  simp [readBack, normAcc, tailOf]
+
+/-- **the round trip returns the tree that was written exactly when no power has a power as its base.** -/
+theorem readBack_eq_iff (e : PowTree) : readBack e = e ↔ leftAtomic e = true := by
+  induction e with
+  | atom n => simp [readBack, normAcc, leftAtomic]
+  | pow a b _ ihb =>
+    cases a with
+    | atom n =>
+      rw [readBack_pow_atom]
+      simp only [leftAtomic, PowTree.pow.injEq, true_and]
+      exact ihb
+    | pow a1 a2 =>
+      simp only [leftAtomic]
+      constructor
+      · intro h
+        have : readBack (.pow (.pow a1 a2) b) = normAcc (.pow a1 a2) (some (normAcc b none)) := by
+          simp [readBack, normAcc, tailOf]
+        obtain ⟨n, r, hs⟩ := normAcc_some_shape (.pow a1 a2) (normAcc b none)
+        rw [this, hs] at h
+        cases h
+      · intro h; cases h
+
+/-- a power of a power is never returned as written. -/
+theorem pow_of_pow_misread (a1 a2 b : PowTree) : readBack (.pow (.pow a1 a2) b) ≠ .pow (.pow a1 a2) b := by
+  intro h
+  have := (readBack_eq_iff _).mp h
+  simp [leftAtomic] at this
+
 
 end Bioscrape.C13
